@@ -22,14 +22,32 @@ def run_check(pid, tier, seed):
     cfgs = ["", "log"] if os.environ.get("MTSA_CFGS", "both") == "both" else [""]
     for feats in cfgs:
         facts = core.ensure_facts(feats)
-        ctx.cfg = feats or "default"
-        ctx.facts = facts
-        ctx.roles = Roles(facts)
-        try:
-            mod.run(ctx)
-        except Exception as e:  # fail closed: an analysis crash is not a pass
-            traceback.print_exc()
-            ctx.lost("internal", "analysis error in %s: %s: %s" % (pid, type(e).__name__, e))
+        sub = run_pass(pid, tier, seed, mod, facts, feats)
+        # Fallback: the rules are phrased on the role functions' bodies; when the program as written raises something, helper
+        # functions extracted from a role function (single call site, private, pinned by no role resolver) are inlined there —
+        # a semantics-preserving normal form — and the rules run again, up to three rounds (helpers of helpers).  The verdict is
+        # the normal form's when it is clean; otherwise the report on the program as written stands.
+        if sub.violations and os.environ.get("MTSA_INLINE", "1") != "0":
+            from . import pins
+            cur, inlined = sub, []
+            for _round in range(3):
+                try:
+                    nf, done = pins.inline_round(cur)
+                except Exception:
+                    traceback.print_exc()
+                    break
+                if not done:
+                    break
+                inlined += done
+                cur = run_pass(pid, tier, seed, mod, nf, feats)
+                if not cur.violations:
+                    break
+            if inlined and not cur.violations:
+                cur.note("[%s] clean after inlining extracted helpers into their single call site: %s" % (feats or "default", inlined))
+                sub = cur
+            elif inlined:
+                sub.note("[%s] helper inlining tried (%s): still %d violation(s) on the normal form" % (feats or "default", inlined, len(cur.violations)))
+        merge_ctx(ctx, sub)
     if tier == "thorough" and hasattr(mod, "thorough"):
         try:
             mod.thorough(ctx)
@@ -40,6 +58,28 @@ def run_check(pid, tier, seed):
     if tier == "thorough":
         extra = liveness_sweep(ctx, pid)
     return core.finish(ctx, claim["level"], claim["explanation"], claim["assumptions"], t0, extra)
+
+
+def run_pass(pid, tier, seed, mod, facts, feats):
+    sub = core.Ctx(pid, tier, seed)
+    sub.cfg = feats or "default"
+    sub.facts = facts
+    sub.roles = Roles(facts)
+    try:
+        mod.run(sub)
+    except Exception as e:  # fail closed: an analysis crash is not a pass
+        traceback.print_exc()
+        sub.lost("internal", "analysis error in %s: %s: %s" % (pid, type(e).__name__, e))
+    return sub
+
+
+def merge_ctx(ctx, sub):
+    ctx.violations += sub.violations
+    ctx.obligations += sub.obligations
+    ctx.functions |= sub.functions
+    ctx.notes += sub.notes
+    ctx.rules_text.update(sub.rules_text)
+    ctx.cfg, ctx.facts, ctx.roles = sub.cfg, sub.facts, sub.roles
 
 
 def liveness_sweep(ctx, pid):
